@@ -79,14 +79,8 @@ def diagonal(diagonal, transpose, to_tensor, argname_axis1="axis1", argname_axis
         axis_in = axes_in[0]
 
         # Only one in-axis remains. Move it to the out-axis.
-        perm = []
-        for i in range(x.ndim):
-            if i == axis_out:
-                perm.append(axis_in)
-            elif i == axis_in:
-                perm.append(axis_out)
-            else:
-                perm.append(i)
+        perm = [i for i in range(x.ndim) if i != axis_in]
+        perm.insert(axis_out, axis_in)
         x = transpose(x, perm)
 
         return x
